@@ -6,9 +6,9 @@ import (
 	"bytes"
 	"context"
 
+	"fmt"
 	"github.com/tikv/client-go/v2/config"
 	"os"
-	"fmt"
 	"strings"
 	"time"
 
